@@ -853,6 +853,20 @@ pub mod d12 {
         data.parse_add_symbol(&name)
     }
 }
+pub mod t20 {
+    use garnish_lang_traits::{GarnishData, Instruction};
+    /// a handler that skips its own instruction when the last one in the stream "already yields a boolean"
+    pub fn ctl_handler_reads_back<D: GarnishData>(data: &mut D, instruction: Instruction) -> Result<(), D::Error> {
+        let already = match data.get_instruction_iter().last().and_then(|i| data.get_instruction(i)) {
+            Some((Instruction::Tis, _)) => true,
+            _ => false,
+        };
+        if !already {
+            data.push_instruction(instruction, None)?;
+        }
+        Ok(())
+    }
+}
 pub mod g4c {
     use garnish_lang_traits::{GarnishData, TypeConstants};
     pub fn ctl_no_lower_bound<D: GarnishData>(this: &D, list: D::Size, index: D::Number) -> Result<Option<D::Size>, D::Error> {
